@@ -38,14 +38,21 @@ case "$ID" in
     exec "$HERE/bin/check-sched" "$@"
     ;;
 esac
-# Sequential checks: build with the deterministic LIFO pool shim (sync.Pool in the three pool files is
-# redirected through an overlay) so that object reuse through the process-wide pools is immediate and
-# reproducible; if the sources cannot be rewritten, fall back to the plain build (real sync.Pool).
+# Sequential checks: build from rewritten copies of the current sources (overlay; /repo untouched) so that the
+# two sources of nondeterminism inside the library are owned: sync.Pool becomes a deterministic LIFO stack that
+# starts empty in every execution, and every `range` over a Go map iterates in canonical order (vsched.DetMaps).
+# Preference: full rewrite (pools + map ranges; hooks are no-ops around the real primitives when no controller is
+# attached) -> pools only (textual import redirection) -> plain build with the real sync.Pool.
 POOLS_OK=0
-if go build -o "$HERE/bin/instrument" ./cmd/instrument 2>"$HERE/build/build.err" && \
-   (cd "$REPO" && "$HERE/bin/instrument" "$REPO" "$HERE/build/pools" "$HERE/harness/vsched_src/vsched.go" --pools-only) >"$HERE/build/pools.out" 2>&1 && \
-   go build -tags "verif pools" -overlay "$HERE/build/pools/overlay.json" -o "$HERE/bin/check" ./cmd/check 2>"$HERE/build/build.err"; then
-  POOLS_OK=1
+if go build -o "$HERE/bin/instrument" ./cmd/instrument 2>"$HERE/build/build.err"; then
+  if (cd "$REPO" && "$HERE/bin/instrument" "$REPO" "$HERE/build/seq" "$HERE/harness/vsched_src/vsched.go") >"$HERE/build/seq.out" 2>&1 && \
+     go build -tags "verif pools" -overlay "$HERE/build/seq/overlay.json" -o "$HERE/bin/check" ./cmd/check 2>"$HERE/build/build.err"; then
+    POOLS_OK=1
+  elif (cd "$REPO" && "$HERE/bin/instrument" "$REPO" "$HERE/build/pools" "$HERE/harness/vsched_src/vsched.go" --pools-only) >"$HERE/build/pools.out" 2>&1 && \
+     go build -tags "verif pools" -overlay "$HERE/build/pools/overlay.json" -o "$HERE/bin/check" ./cmd/check 2>"$HERE/build/build.err"; then
+    POOLS_OK=1
+    echo "note: map ranges not rewritten ($(tail -1 "$HERE/build/seq.out" 2>/dev/null)); pool shim only"
+  fi
 fi
 if [ "$POOLS_OK" != 1 ]; then
   echo "note: pool shim not applied ($(tail -1 "$HERE/build/pools.out" 2>/dev/null)); plain build"
